@@ -61,6 +61,7 @@ const (
 	kindPlain = 0
 	kindMap   = 1
 	kindChan  = 2
+	kindIter  = 3 // map/string iterator: cells[0] = position, always a constant
 )
 
 type Obj struct {
